@@ -16,6 +16,10 @@ pub fn instances(tier: &str) -> Vec<String> {
     for k in 0..=(if tier == "thorough" { 3 } else { 2 }) { v.push(format!("sys_any:n=1,iters={}", k)); v.push(format!("sysjac_any:n=1,iters={}", k)); }
     for k in 0..=(if tier == "thorough" { 2 } else { 1 }) { v.push(format!("sys_any:n=2,iters={}", k)); v.push(format!("sysjac_any:n=2,iters={}", k)); }
     for n in 1..=2 { v.push(format!("sys_affine:n={},iters=2", n)); v.push(format!("sysjac_affine:n={},iters=2", n)); }
+    // order 3 with a user-supplied Jacobian (the pivoting of the dense solver only matters from n = 3 on; with finite
+    // differences the n = 3 affine instance does not finish in 15 min)
+    v.push("sysjac_affine:n=3,iters=2".into());
+    v.push("sysjac_any:n=3,iters=1".into());
     v.push("csys_affine:n=1,iters=2".into());
     // complex systems with an arbitrary map (fresh complex symbols per call), finite-difference and user-supplied Jacobian
     for k in 0..=2 { v.push(format!("csys_any:n=1,iters={}", k)); v.push(format!("csysjac_any:n=1,iters={}", k)); }
@@ -235,8 +239,9 @@ pub fn body(inst: &str) {
                     }
                     if done >= 1 { for t in 0..n { prove_eq("first residual is evaluated at the guess", fc[0].0[t], x0[t]); } }
                 }
-                Err(Stop::DivZero { .. }) => { check_that(fc.len() <= (2 * n + 4) * iters, || "evaluation bound on a singular-Jacobian path".into()); note("singular Jacobian: IEEE inf/NaN continuation is not modelled (path ends)".into()); }
-                Err(st) => must_not_stop("Newton<Vec64>::solve", &st),
+                // (an affine map with det M != 0 has a nonsingular Jacobian everywhere: a zero divisor there is the linear solver's fault)
+                Err(Stop::DivZero { .. }) if !affine => { check_that(fc.len() <= (2 * n + 4) * iters, || "evaluation bound on a singular-Jacobian path".into()); note("singular Jacobian: IEEE inf/NaN continuation is not modelled (path ends)".into()); }
+                Err(st) => must_not_stop("Newton<Vec64>::solve (nonsingular affine system: the step must be computable)", &st),
             }
             drop(fc);
             if affine {
